@@ -96,13 +96,13 @@ def load_graph(dot, pool):
     return nodes, succ, inits
 
 
-def abstract_key(S):
+def abstract_key(S, per_kind=True):
     """The state without `last`: what the outcome of the next operation depends on."""
-    return repr((S['kind'], S['n'], sorted(S['live'].items()), sorted(map(repr, S['store'].items())), repr(S['mem']), repr(S['heap']),
-                 sorted(map(repr, S['files'])), sorted(S['dev'])))
+    return repr((S['kind'] if per_kind else '-', S['n'], sorted(S['live'].items()), sorted(map(repr, S['store'].items())), repr(S['mem']), repr(S['heap']),
+                 sorted(repr((dict(f)['key'], dict(f)['snap'])) for f in S['files']), sorted(S['dev'])))
 
 
-def cover_paths(nodes, succ, inits, rng, extra_random):
+def cover_paths(nodes, succ, inits, rng, extra_random, per_kind=True):
     """Paths (lists of node ids, starting at an initial state) such that every (abstract state, operation) pair of the graph is
     on at least one of them, plus `extra_random` random maximal paths."""
     for k in succ:
@@ -111,7 +111,7 @@ def cover_paths(nodes, succ, inits, rng, extra_random):
     for a, bs in succ.items():
         for b in bs:
             pred[b].append(a)
-    absk = {i: abstract_key(S) for i, S in nodes.items()}
+    absk = {i: abstract_key(S, per_kind) for i, S in nodes.items()}
     opk = {i: tuple(S['last']['op']) for i, S in nodes.items()}
     targets = set()
     for a, bs in succ.items():
@@ -185,8 +185,8 @@ def _replay_chunk(paths):
     return out, sorted(devs), nontrivial
 
 
-def graph_replay(name, L, kinds, fx, rng, extra_random):
-    tla, cfg = mc(name, L, kinds, fx, [], invariants=['C14_Explained', 'C14_AbsFiles', 'C14_FileNames', 'C14_StoreContracts'])
+def graph_replay(name, L, kinds, fx, rng, extra_random, per_kind=True):
+    tla, cfg = mc(name, L, kinds, fx, [], invariants=['C14_Explained', 'C14_FileNames'])
     t0 = time.time()
     ctx = multiprocessing.get_context('fork')
     with tlc.Workdir() as wd:
@@ -204,7 +204,7 @@ def graph_replay(name, L, kinds, fx, rng, extra_random):
     if len(nodes) != res.distinct:
         raise tlc.MachineryError('%s: %d nodes parsed, TLC reports %d distinct states' % (name, len(nodes), res.distinct))
     t2 = time.time()
-    paths, ntargets, ncover = cover_paths(nodes, succ, inits, rng, extra_random)
+    paths, ntargets, ncover = cover_paths(nodes, succ, inits, rng, extra_random, per_kind)
     t3 = time.time()
     _G['nodes'] = nodes
     divergent, devs, nontrivial = [], set(), 0
@@ -217,17 +217,30 @@ def graph_replay(name, L, kinds, fx, rng, extra_random):
             nontrivial += nt
     # census of the states in which the property fails (as specified)
     bad = collections.Counter()
-    for S in nodes.values():
-        d = set(S['dev']) | set(S['last']['dev'])
-        if d:
-            for x in d:
-                bad[x] += 1
+    first = {}
+    pred1 = {}
+    for a, bs in succ.items():
+        for b in bs:
+            pred1.setdefault(b, a)
+    for i, S in nodes.items():
+        for x in set(S['dev']) | set(S['last']['dev']):
+            bad[x] += 1
+            if x not in first or (S['n'], S['kind'], i) < (nodes[first[x]]['n'], nodes[first[x]]['kind'], first[x]):
+                first[x] = i
+    shortest = {}
+    for x, i in first.items():
+        p = [i]
+        while p[-1] in pred1:
+            p.append(pred1[p[-1]])
+        p.reverse()
+        shortest[x] = {'id_kind': nodes[i]['kind'], 'history': [list(nodes[j]['last']['op']) for j in p[1:]],
+                       'last': {k: (model_json(v)) for k, v in nodes[i]['last'].items()}}
     longest = max(paths[:200], key=len)
     sample = {'id_kind': nodes[longest[0]]['kind'], 'history': [list(nodes[i]['last']['op']) for i in longest[1:]],
               'final_store': sorted([list(k), list(v)] for k, v in nodes[longest[-1]]['store'].items() if list(v) != [0, 0])}
     _G.clear()
     return {'name': name, 'states': len(nodes), 'transitions': res.generated, 'paths': len(paths), 'cover_paths': ncover, 'targets': ntargets,
-            'divergent': divergent, 'devs': devs, 'nontrivial': nontrivial, 'sample': sample, 'states_by_deviation': dict(bad),
+            'divergent': divergent, 'devs': devs, 'nontrivial': nontrivial, 'sample': sample, 'states_by_deviation': dict(bad), 'shortest': shortest,
             'tlc_s': round(t1 - t0, 1), 'parse_s': round(t2 - t1, 1), 'cover_s': round(t3 - t2, 1), 'replay_s': round(time.time() - t3, 1)}
 
 
@@ -244,6 +257,14 @@ def write_replay(kind, payload):
     return path
 
 
+def model_json(v):
+    if isinstance(v, dict):
+        return {str(k): model_json(x) for k, x in v.items()}
+    if isinstance(v, (list, tuple, set, frozenset)):
+        return [model_json(x) for x in (sorted(v, key=repr) if isinstance(v, (set, frozenset)) else v)]
+    return v
+
+
 def history_of(trace):
     return [list(s['last']['op']) for _, s in trace[1:] if 'last' in s]
 
@@ -255,7 +276,7 @@ def run(tier, seed):
     rng = random.Random(seed)
     if tier == 'quick':
         verdict = [dict(name='MC_C14_L4', L=4, kinds=KINDS)]
-        replays = [dict(name='MC_C14_dump_L4', L=4, kinds=KINDS, extra_random=2000)]
+        replays = [dict(name='MC_C14_dump_L4', L=4, kinds=KINDS, extra_random=2000, per_kind=False)]
     else:
         verdict = [dict(name='MC_C14_L6', L=6, kinds=['int']), dict(name='MC_C14_L5', L=5, kinds=KINDS)]
         replays = [dict(name='MC_C14_dump_L4', L=4, kinds=KINDS, extra_random=5000),
@@ -285,6 +306,7 @@ def run(tier, seed):
     rp_summ, samples = [], []
     devs_hit = set()
     census = collections.Counter()
+    shortest = {}
     for r in replays:
         g = graph_replay(fx=fx, rng=rng, **r)
         if 'tlc_violated' in g:
@@ -301,6 +323,9 @@ def run(tier, seed):
         devs_hit |= g['devs']
         samples.append(g['sample'])
         census.update(g['states_by_deviation'])
+        for x, h in g['shortest'].items():
+            if x not in shortest or len(h['history']) < len(shortest[x]['history']):
+                shortest[x] = h
         rp_summ.append({k: g[k] for k in ('name', 'states', 'transitions', 'paths', 'cover_paths', 'targets', 'tlc_s', 'parse_s', 'cover_s', 'replay_s')}
                        | {'divergent': len(g['divergent'])})
         for d in sorted(g['divergent'], key=lambda x: len(x['ops']))[:5]:
@@ -333,6 +358,17 @@ def run(tier, seed):
             violations += 1
         elif not res.ok:
             raise tlc.MachineryError('TLC did not complete on %s:\n%s' % (v['name'], res.out[-3000:]))
+    # histories on which the property fails, as specified and as implemented (they conform), per deviation clause
+    for x in sorted(census):
+        if x in known:
+            continue
+        h = shortest[x]
+        path = write_replay('defect', {'kind': 'property-fails-on-history', 'fixes': fx, 'deviation_clause': x, 'what': WHAT.get(x, x),
+                                       'states': census[x], 'id_kind': h['id_kind'], 'history': h['history'], 'last': h['last']})
+        print('DEFECT deviation=%s (not a listed finding): %d states of the replayed graphs; shortest history (id kind %s): %s -- %s' % (
+            x, census[x], h['id_kind'], json.dumps(h['history']), WHAT.get(x, x)))
+        print('VIOLATION property=%s replay=%s' % (PID, path))
+        violations += 1
     findings.print_known(PID, devs_hit)
     cov = {
         'states': max(states, 1), 'transitions': max(transitions, 1), 'traces_validated_against_impl': replayed,
